@@ -262,8 +262,10 @@ def eval_autograd(e, env, anp, ops):
     ev = lambda a: eval_autograd(a, env, anp, ops)
     if t == "c":
         return e[1]
+    # optional dialect hooks in `ops`: "wrap:v" / "wrap:D" (identity-valued wrappers applied to every variable
+    # read / inner derivative value) and "fn:<name>" (replacement implementations of the elementary functions)
     if t == "v":
-        return env[e[1]]
+        return ops["wrap:v"](env[e[1]]) if "wrap:v" in ops else env[e[1]]
     if t == "+":
         return ev(e[1]) + ev(e[2])
     if t == "-":
@@ -272,18 +274,10 @@ def eval_autograd(e, env, anp, ops):
         return ev(e[1]) * ev(e[2])
     if t == "/":
         return ev(e[1]) / ev(e[2])
-    if t == "sin":
-        return anp.sin(ev(e[1]))
-    if t == "cos":
-        return anp.cos(ev(e[1]))
-    if t == "exp":
-        return anp.exp(ev(e[1]))
-    if t == "tanh":
-        return anp.tanh(ev(e[1]))
-    if t == "log":
-        return anp.log(ev(e[1]))
+    if t in ("sin", "cos", "exp", "tanh", "log"):
+        return (ops.get("fn:" + t) or getattr(anp, t))(ev(e[1]))
     if t == "pow":
-        return ev(e[1]) ** e[2]
+        return ops["fn:pow"](ev(e[1]), e[2]) if "fn:pow" in ops else ev(e[1]) ** e[2]
     if t == "D":
         _, op, var, body, at = e
 
@@ -292,7 +286,8 @@ def eval_autograd(e, env, anp, ops):
             env2[var] = v
             return eval_autograd(body, env2, anp, ops)
 
-        return ops[op](fun, ev(at))
+        r = ops[op](fun, ev(at))
+        return ops["wrap:D"](r) if "wrap:D" in ops else r
     if t == "Dvec":
         _, op, var, body, ats, ws = e
 
